@@ -338,7 +338,9 @@ Qed.
       ClassicalDedekindReals.sig_forall_dec, ClassicalDedekindReals.sig_not_dec,
       FunctionalExtensionality.functional_extensionality_dep
     because the first contact time is in general irrational.  No other theorem of this development depends on them.
-    [ExactMiddle g L]: the pixel centre is the exact middle (level above the deepest, or even resolution).
+    NO assumption on the pixel middles: the sweep lemma is used with the half-open box of the model's pixel around
+    the model's centre, which for an odd pixel size is half a unit off the middle but the same for every pixel; so
+    the theorems cover the deepest level of grids with an odd resolution (e.g. WebMercatorQuad).
     Beyond the class the statement is false: [C01_refuted] (F5). *)
 From Texel Require Import Snap.ProofsJoinC01c Snap.ProofsJoinC01d Snap.ProofsJoinC01e.
 
@@ -352,15 +354,15 @@ Theorem C01_valid_polygon_edges_separated : forall P, valid_polygon P ->
 Proof. exact valid_polygon_edges_separated. Qed.
 Print Assumptions C01_valid_polygon_edges_separated.
 
-(** routed steps: for a valid polygon inside the grid, any level within the index with exact pixel middles, no two
+(** routed steps: for a valid polygon inside the grid, any level within the index, no two
     steps (pairs of consecutive centres of the lists snapClosestPoints returns for edges of the normalised rings, in
     either direction) cross properly *)
 Theorem C01_routed_steps_do_not_cross : forall g P hs L e f, 0 < gres g -> RootCovers g ->
-  insertPolygon g P = Ok hs -> (L <= gdeep g)%nat -> ExactMiddle g L -> valid_polygon P ->
+  insertPolygon g P = Ok hs -> (L <= gdeep g)%nat -> valid_polygon P ->
   routed_step g (hotLevels g hs) L P e -> routed_step g (hotLevels g hs) L P f ->
   ~ proper_cross (fst e) (snd e) (fst f) (snd f).
 Proof.
-  intros g P hs L e f Hr C Hi HL Ex V. exact (routed_steps_do_not_cross g P hs L e f Hr C Hi HL Ex (valid_polygon_edges_separated P V)).
+  intros g P hs L e f Hr C Hi HL V. exact (routed_steps_do_not_cross g P hs L e f Hr C Hi HL (valid_polygon_edges_separated P V)).
 Qed.
 Print Assumptions C01_routed_steps_do_not_cross.
 
@@ -371,7 +373,7 @@ Theorem C01_on_class : forall g P levels cfg res hs, 0 < gres g -> RootCovers g 
   (forall L idx r c, In L levels -> nth_error P idx = Some r ->
      routedClean g (hotLevels g hs) L idx r = Ok c -> ProofsKmpLe2.le2 c) ->
   valid_polygon P -> snapPolygon g P levels cfg = Ok res ->
-  forall L ps e f, In (L, ps) res -> ExactMiddle g L -> In e (edges ps) -> In f (edges ps) -> ~ edge_cross e f.
+  forall L ps e f, In (L, ps) res -> In e (edges ps) -> In f (edges ps) -> ~ edge_cross e f.
 Proof.
   intros g P levels cfg res hs Hr C HLs Hi Hcl V.
   exact (no_crossing_on_class g P levels cfg res hs Hr C HLs Hi Hcl (valid_polygon_edges_separated P V)).
@@ -386,3 +388,45 @@ Example C01_on_class_example :
      (edges [[[(4,4);(20,4);(20,28);(20,60);(4,60)]]; [[(44,28);(44,4);(60,4);(60,60);(44,60)]]; [[(20,28);(44,28)]]]))
      (edges [[[(4,4);(20,4);(20,28);(20,60);(4,60)]]; [[(44,28);(44,4);(60,4);(60,60);(44,60)]]; [[(20,28);(44,28)]]]) = true.
 Proof. split; [apply valid_polygon_b_sound; vm_compute; reflexivity | vm_compute; reflexivity]. Qed.
+
+
+(** no vertex of the returned geometry inside a returned edge, on the class, WITHOUT the exact-middle hypothesis of
+    [C01_partial_no_vertex_inside_edge_on_class] (same argument with the model's pixel box; real-number axioms) *)
+Theorem C01_no_vertex_inside_edge_on_class : forall g P levels cfg res hs, 0 < gres g -> RootCovers g ->
+  (forall L, In L levels -> (0 < L <= gdeep g)%nat) -> insertPolygon g P = Ok hs ->
+  (forall L idx r c, In L levels -> nth_error P idx = Some r ->
+     routedClean g (hotLevels g hs) L idx r = Ok c -> ProofsKmpLe2.le2 c) ->
+  snapPolygon g P levels cfg = Ok res ->
+  forall L ps e p (mu : Q), In (L, ps) res -> In e (edges ps) -> In p (concat (concat ps)) ->
+    (0 <= mu)%Q -> (mu <= 1)%Q -> peq (qpt p) (mix mu (qpt (fst e)) (qpt (snd e))) -> p = fst e \/ p = snd e.
+Proof. exact no_vertex_inside_edge_on_class_general. Qed.
+Print Assumptions C01_no_vertex_inside_edge_on_class.
+
+(** non-vacuity at an ODD resolution, at the DEEPEST level: 32 x 32 pixels of size 3 (deepest level 5, where the
+    centre is not the middle of the pixel: [ExactMiddle] fails) and level 3 (pixels of size 12); the neck polygon is
+    valid, inside the grid, in the class at both levels; snapPolygon returns, and in the result of the deepest level
+    no two edges cross (exact oracle) *)
+Definition c01Godd : grid := mkGrid (mkExtent 0 0 96 96) 3 5.
+
+Example C01_on_class_odd_resolution_example :
+  ~ ExactMiddle c01Godd 5 /\ 0 < gres c01Godd /\ RootCovers c01Godd /\ valid_polygon c01Neck /\
+  (exists hs, insertPolygon c01Godd c01Neck = Ok hs /\
+     forall L idx r c, In L [5; 3]%nat -> nth_error c01Neck idx = Some r ->
+       routedClean c01Godd (hotLevels c01Godd hs) L idx r = Ok c -> ProofsKmpLe2.le2 c) /\
+  match snapPolygon c01Godd c01Neck [5; 3]%nat (mkConfig true false false) with
+  | Ok ((5%nat, ps5) :: (3%nat, ps3) :: nil) =>
+      forallb (fun e => forallb (fun f => negb (edge_cross_b e f)) (edges ps5)) (edges ps5) = true /\
+      forallb (fun e => forallb (fun f => negb (edge_cross_b e f)) (edges ps3)) (edges ps3) = true /\
+      length (edges ps5) = 12%nat
+  | _ => False
+  end.
+Proof.
+  split; [intros [H | H]; [exact (Nat.lt_irrefl _ H) | vm_compute in H; discriminate] |].
+  split; [reflexivity |]. split; [vm_compute; repeat split; discriminate |].
+  split; [apply valid_polygon_b_sound; vm_compute; reflexivity |]. split.
+  { destruct (insertPolygon c01Godd c01Neck) as [hs |] eqn:E; [| vm_compute in E; discriminate].
+    exists hs. split; [reflexivity |]. vm_compute in E. inversion E; subst hs. clear E.
+    intros L idx r c HL. revert idx r c. apply class_le2b_sound. cbn [In] in HL.
+    destruct HL as [<- | [<- | []]]; vm_compute; reflexivity. }
+  vm_compute. repeat split; reflexivity.
+Qed.
